@@ -1,9 +1,12 @@
-"""Scratch property for timing experiments: instances from $CX (python expression list of apply_inst arg tuples)."""
+"""Scratch property for timing experiments: instances from $CX (python expression; names from the props modules in scope)."""
 import os
 from ._apply import apply_inst
+from .c19 import strip_inst
+from ..kani import Instance
+from . import writer_loops, FROM_UTF8_STUB
 
 
 def spec(tier, seed):
     items = eval(os.environ.get("CX", "[]"))
-    inst = [apply_inst(*a, **k) for a, k in items]
+    inst = [i if isinstance(i, Instance) else apply_inst(*i[0], **i[1]) for i in items]
     return {"instances": inst, "level": "model_checking"}
